@@ -239,6 +239,9 @@ class C19(Prop):
             D('api', M({'a': Q([S(1), M({'b': S(2)})]), 'c': S(3), 'e': M([]), 'l': Q([])}), parse_between=True, env={'safe': None, 'src': None},
               kw={'prio': 1, 'del': True, 'new': False, 'safe': False, 'md': [['x', 1]], 'src': 'f.yaml', 'iDel': False, 'iNew': True, 'iSafe': True}),
             D('api', Q([S(1), Q([S(2)])]), parse_between=False, kw={'new': False}, env={'safe': True, 'src': 'dflt.yaml'}),
+            # containers beyond the batch size of the pickle protocol (list items and dict items travel in batches of 1000) (S8-C19)
+            D('merge', M({'big': Q([S(i % 7) for i in range(1203)]), 'wide': M([('k%d' % i, S(i % 5)) for i in range(1100)]), 'z': S(1)})),
+            D('api', M({'big': Q([S(1)] * 2050)}), parse_between=False, env={'safe': None, 'src': None}, kw={}),
             D('parse', M({'p': Q([S('d')], tag={'k': 'path', 'f': 'cwd'}), 'i': Stext('inc.yaml', 'include'), 'n': Sempty('null', kw={'prio': 1}),
                           'e': Stext('T(p)', 'eval'), 'x': Stext('p', 'xref'), 'f': Stext("f'{p}'", 'fstr'), 'c': Sempty('clear'),
                           'v': Stext('p', 'prev'), 'q': Q([S(1)], tag='append'), 'r': Sempty('required')})),
